@@ -124,6 +124,10 @@ def prevDiff (days target : Int) : Int :=
 def nextOrSameDiff (days target : Int) : Int := if dayOfWeek days = target then 0 else nextDiff days target
 def prevOrSameDiff (days target : Int) : Int := if dayOfWeek days = target then 0 else prevDiff days target
 
+/-- `DateAdjusters.next / previous / next_or_same / previous_or_same (day_of_week)` and `LocalDate.next / previous`
+    validate the requested day of week before anything else -/
+def adjusterFactory (target : Int) : R Unit := checkRange target 1 7
+
 /-- `LocalDate.from_year_month_week_and_day` on the first-of-month day number and the month length → day of month -/
 def nthWeekdayOfMonth (firstOfMonthDays daysInMonth occurrence dow : Int) : R Int := do
   checkRange occurrence 1 5
@@ -193,6 +197,23 @@ def handle (toks : List String) : Option String :=
       let (y, w, wd) := pyIsocalendar c cy d
       some (showInts [y, w, wd])
     | _ => none
+  | "wy.sw" :: rest => do
+    -- sweep: … d0 k → (weekYear week dayOfWeek) for the k consecutive days from d0; the calendar year of each day
+    -- is looked up in the supplied rows
+    let (r, t, c, args) ← parseCtx rest
+    match args with
+    | [d0, k] =>
+      let ds : List Int := (List.range k.toNat).map (fun (i : Nat) => d0 + Int.ofNat i)
+      let one := fun (d : Int) => do
+        let cy ← t.yearOf d
+        if !(t.covers [cy - 1, cy, cy + 1]) then none else
+        let wy := weekYear r c cy d
+        if !(t.covers [wy]) then none else
+        some [wy, weekOf r c cy d, dayOfWeek d]
+      match ds.mapM one with
+      | some ls => some (showInts ls.flatten)
+      | none => some "!dom"
+    | _ => none
   | "wy.weeks" :: rest => do
     let (r, t, c, args) ← parseCtx rest
     match args with
@@ -215,11 +236,17 @@ def handle (toks : List String) : Option String :=
     if tg < 1 ∨ tg > 7 then some "!valueError" else
     some (showInts [dayOfWeek d, nextDiff d tg, prevDiff d tg, nextOrSameDiff d tg, prevOrSameDiff d tg])
   | ["wd.nav", d, target, minD, maxD] => do
-    -- with the calendar's day range: a result outside it is an overflow (`plus_days` raises)
+    -- with the calendar's day range: a result outside it is an overflow (`plus_days` raises).
+    -- Fields: day of week; LocalDate.next, LocalDate.previous, DateAdjusters.next_or_same, .previous_or_same,
+    -- DateAdjusters.next, DateAdjusters.previous.  A target outside Monday…Sunday is refused by every one of the six
+    -- (`LocalDate.next/previous` and the four adjuster factories all validate it first).
     let d ← parseInt? d; let tg ← parseInt? target; let lo ← parseInt? minD; let hi ← parseInt? maxD
-    if tg < 1 ∨ tg > 7 then some "!valueError" else
-    let sh := fun (k : Int) => if d + k < lo ∨ d + k > hi then "!range" else toString k
-    some (" ".intercalate [toString (dayOfWeek d), sh (nextDiff d tg), sh (prevDiff d tg), sh (nextOrSameDiff d tg), sh (prevOrSameDiff d tg)])
+    let sh := fun (k : Int) =>
+      match adjusterFactory tg with
+      | .error e => "!" ++ e.name
+      | .ok () => if d + k < lo ∨ d + k > hi then "!range" else toString k
+    some (" ".intercalate [toString (dayOfWeek d), sh (nextDiff d tg), sh (prevDiff d tg), sh (nextOrSameDiff d tg),
+      sh (prevOrSameDiff d tg), sh (nextDiff d tg), sh (prevDiff d tg)])
   | ["wd.nth", f, dim, occ, dow] => do
     let l ← parseInts? [f, dim, occ, dow]
     match l with
